@@ -44,6 +44,10 @@ class D extends C { constructor(){ super(); this.c='D.c'; } m(){ return 'D>'+sup
 var ga=1; globalThis.gb=2;
 var objs=[ {a:1,b:2}, {a:1,b:2}, {b:2,a:1}, Object.create(P0), Object.create(P1), new C(), new C(), new D(), [1,2,3], function fobj(){}, Object.create(null), (function(){ return arguments; })(1,2) ];
 objs[3].x='o3.x'; objs[4].b='o4.b';
+// receivers with unique (dictionary) shapes: builtin namespace / prototype objects and a user object pushed into dictionary mode
+var dict={}; for (var i=0;i<1100;i++){ dict['t'+i]=i; } for (var i=0;i<1100;i++){ delete dict['t'+i]; } dict.a='dict.a';
+objs.push(Math, Array.prototype, dict, globalThis);
+function warm(){ var all=objs.concat(prims); for (var i=0;i<sites.length;i++) for (var j=0;j<all.length;j++){ try { sites[i][1](all[j]); } catch(e){} } }
 var prims=[5, 'str', true, 10n, Symbol.iterator];
 "#;
 
@@ -70,13 +74,13 @@ fn site_defs(rng: &mut Rng) -> Vec<String> {
 }
 
 fn gen_op(rng: &mut Rng) -> String {
-    let o = format!("objs[{}]", rng.below(12));
+    let o = format!("objs[{}]", rng.below(16));
     let p = *rng.pick(&["P0", "P1", "C.prototype", "D.prototype", "Object.prototype", "Array.prototype", "Function.prototype"]);
     let target = if rng.chance(1, 2) { o.clone() } else { p.to_string() };
     let nm = *rng.pick(NAMES);
     let g = *rng.pick(GLOBALS);
     let v = rng.below(100);
-    match rng.below(24) {
+    match rng.below(31) {
         0..=2 => format!("{target}.{nm}={v};"),
         3 | 4 => format!("delete {target}.{nm};"),
         5 => format!("Object.defineProperty({target},'{nm}',{{get(){{ return 'getter{v}'; }}, configurable:true, enumerable:true}});"),
@@ -97,7 +101,14 @@ fn gen_op(rng: &mut Rng) -> String {
         20 => format!("objs[{}]=new {}();", rng.below(12), rng.pick(&["C", "D"])),
         21 => format!("{p}.{nm}=function {nm}{v}(){{ return 'f{v}'; }};"),
         22 => format!("objs[{}]=objs[{}];", rng.below(12), rng.below(12)),
-        _ => format!("{o}.{nm}=undefined; {o}.q{v}={v};"),
+        23 => format!("{o}.{nm}=undefined; {o}.q{v}={v};"),
+        // composite histories with a warm-up of every site in the middle
+        24 | 25 => format!("{target}.{nm}='tmp{v}'; warm(); delete {target}.{nm}; {target}.z{v}='next{v}';"),
+        26 => format!("Object.defineProperty({target},'{nm}',{{value:{v}, configurable:true, writable:true, enumerable:true}}); warm(); Object.defineProperty({target},'{nm}',{{get(){{ return 'late{v}'; }}, configurable:true}});"),
+        27 => format!("warm(); Object.setPrototypeOf({o}, {}); warm(); Object.setPrototypeOf({o}, {});", rng.pick(&["P0", "P1", "C.prototype"]), rng.pick(&["P1", "P0", "null", "Object.prototype"])),
+        28 => format!("{p}.{nm}='own{v}'; warm(); {o}.{nm}='shadow{v}'; warm(); delete {o}.{nm};"),
+        29 => format!("globalThis.{g}={v}; warm(); delete globalThis.{g}; globalThis.gz{v}={v};"),
+        _ => format!("warm(); delete {target}.{nm}; warm(); {target}.{nm}='back{v}';"),
     }
 }
 
@@ -290,7 +301,7 @@ pub const PROP: Prop = Prop {
     generate,
     execute,
     shrink,
-    rule: "one run = one scenario (12 pooled objects incl. arrays, functions, class instances, null-prototype and arguments objects + 5 primitive receivers; prototype chains P0<-P1, C<-D, built-in prototypes; 5..11 access sites drawn from get/set/call/compound/optional/global read/global write/length/super forms; a history of 6..30 (quick) / 6..60 (thorough) mutations drawn from 24 kinds: add, delete, redefine as accessor / read-only / setter, reorder or shift a prototype's layout, setPrototypeOf, preventExtensions/seal/freeze, dictionary mode, megamorphic storm, shadow/unshadow, pool replacement, global object mutations) executed in 5 configurations: cache off (reference), on, on + collections, buggified, buggified + collections; after every mutation every site runs against every receiver; non-trivial = always (every run compares four cached configurations against the uncached one); distinct = distinct (site count, history length, hit/miss/stale counters of the four configurations)",
+    rule: "one run = one scenario (16 pooled receivers incl. arrays, functions, class instances, null-prototype and arguments objects, and four unique-shape (dictionary) receivers: Math, Array.prototype, a user object pushed into dictionary mode, globalThis + 5 primitive receivers; prototype chains P0<-P1, C<-D, built-in prototypes; 5..11 access sites drawn from get/set/call/compound/optional/global read/global write/length/super forms; a history of 6..30 (quick) / 6..60 (thorough) mutations drawn from 31 kinds (7 of them composite, with a warm-up of every site in the middle: install-use-remove-replace, data-to-accessor, prototype swap, shadow/unshadow, global install/remove): add, delete, redefine as accessor / read-only / setter, reorder or shift a prototype's layout, setPrototypeOf, preventExtensions/seal/freeze, dictionary mode, megamorphic storm, shadow/unshadow, pool replacement, global object mutations) executed in 5 configurations: cache off (reference), on, on + collections, buggified, buggified + collections; after every mutation every site runs against every receiver; non-trivial = always (every run compares four cached configurations against the uncached one); distinct = distinct (site count, history length, hit/miss/stale counters of the four configurations)",
     real: &["lexer/parser/compiler/VM/builtins", "shapes, property maps, inline caches", "boa_gc (weak shapes)"],
     stub: &["inline-cache interference (hook H3: forced miss / skipped fill / off)", "collection trigger decision (hook H1)"],
     assumptions: &[
